@@ -267,6 +267,73 @@ def oblig_c02(eng, cfg, out, info, after_fit):
                 eng.check("prototype-keeps-label[%d]" % i, to_int(nodes[i].predicted_label) == lab[i], info)
 
 
+def spanning_trees(n):
+    verts = list(range(n))
+    edges = [(a, b) for a in verts for b in verts if a < b]
+    out = []
+    for tree in itertools.combinations(edges, n - 1):
+        comp = list(range(n))
+
+        def find(x):
+            while comp[x] != x:
+                x = comp[x]
+            return x
+        ok = True
+        for a, b in tree:
+            ra, rb = find(a), find(b)
+            if ra == rb:
+                ok = False
+                break
+            comp[ra] = rb
+        if ok:
+            out.append(tree)
+    return out
+
+
+def _tree_path_edges(tree, u, v, n):
+    adj = {i: [] for i in range(n)}
+    for a, b in tree:
+        adj[a].append(b)
+        adj[b].append(a)
+    stack = [(u, [u])]
+    while stack:
+        x, path = stack.pop()
+        if x == v:
+            return [(min(path[k], path[k + 1]), max(path[k], path[k + 1])) for k in range(len(path) - 1)]
+        for y in adj[x]:
+            if y not in path:
+                stack.append((y, path + [y]))
+    return []
+
+
+def oblig_some_mst(eng, cfg, out, info):
+    """the prototype set is the class-boundary endpoint set of SOME minimum spanning tree (any tie pattern)"""
+    n = cfg["n"]
+    g = out["opf"].subgraph
+    W = out["W"]
+    Wz = [[to_real(W[i][j]) for j in range(n)] for i in range(n)]
+    lab = [to_int(x) for x in out["labels"]]
+    status = [g.nodes[i].status for i in range(n)]
+    alts = []
+    for tree in spanning_trees(n):
+        tset = set(tree)
+        cyc = []
+        for u in range(n):
+            for v in range(u + 1, n):
+                if (u, v) not in tset:
+                    for (a, b) in _tree_path_edges(tree, u, v, n):
+                        cyc.append(Wz[u][v] >= Wz[a][b])
+        same = []
+        for i in range(n):
+            inc = [lab[a] != lab[b] for (a, b) in tree if i in (a, b)]
+            want = z3.Or(inc) if inc else z3.BoolVal(False)
+            same.append(want if status[i] == PROTOTYPE else z3.Not(want))
+        alts.append(z3.And(cyc + same))
+    eng.check("prototype-set-is-boundary-of-some-mst", z3.Or(alts), info)
+    for i in range(n, len(g.nodes)):
+        eng.check("unlabeled-is-not-prototype[%d]" % i, g.nodes[i].status != PROTOTYPE, info)
+
+
 def oblig_c03(eng, cfg, out, info):
     """every returned label is one the exhaustive scan could return"""
     snap = out["snap"]
@@ -295,6 +362,138 @@ def oblig_c04(eng, cfg, out, info):
         eng.check("resubstitution[%d]" % i, to_int(p) == lab[i], info)
 
 
+# ---------------------------------------------------------------------------
+# paired runs: C11 (permutation / order-type invariance) and C15 (n_u = 0 equals supervised)
+
+def upper_entries(W, n, N):
+    ent = []
+    for i in range(n):
+        for j in range(i + 1, N):
+            ent.append(W[i][j])
+    return ent
+
+
+def make_pair_harness(cfg, tw):
+    n, nq, branch = cfg["n"], cfg.get("nq", 0), cfg["branch"]
+    part = tuple(cfg["part"])
+    K = cfg.get("K", max(part) + 1)
+    mode = cfg["mode"]
+    N = n + nq
+    sup = tw.mod("opfython.models.supervised")
+    semi_mod = tw.mod("opfython.models.semi_supervised")
+
+    def fit_predict(cls, W, ids, labels, semi0=False):
+        opf = models.build_opf(cls, branch, W)
+        X, Y, I = models.data_for(branch, n, labels, idx=ids)
+        if semi0:
+            opf.fit(X, Y, symnp.zeros((0, 1)), I)
+        else:
+            opf.fit(X, Y, I)
+        preds = None
+        if nq:
+            Xq, _, Iq = models.data_for(branch, nq, None, offset=n)
+            preds = opf.predict(Xq, Iq)
+        return opf, preds
+
+    def harness():
+        eng = core.engine()
+        tie_free = mode in ("perm", "otype")
+        W = models.sym_matrix(eng, N, symmetric=True, diag="free", distinct=False, positive=tie_free)
+        if tie_free:
+            eng.assume(z3.Distinct([to_real(x) for x in upper_entries(W, n, N)]))
+        labels = models.sym_labels(eng, n, K, two_classes=False)
+        assume_partition(eng, labels, part)
+        ids = list(range(n))
+        out = dict(W=W, labels=labels, ids_b=ids)
+        if mode == "perm":
+            k = cfg["swap"]
+            ids_b = list(ids)
+            ids_b[k], ids_b[k + 1] = ids_b[k + 1], ids_b[k]
+            out["ids_b"] = ids_b
+            A = fit_predict(sup.SupervisedOPF, W, ids, labels)
+            B = fit_predict(sup.SupervisedOPF, W, ids_b, [labels[t] for t in ids_b])
+        elif mode == "otype":
+            V = models.sym_matrix(eng, N, symmetric=True, diag="free", name="v", positive=True)
+            ew, evs = [to_real(x) for x in upper_entries(W, n, N)], [to_real(x) for x in upper_entries(V, n, N)]
+            cons = []
+            for a in range(len(ew)):
+                for b in range(a + 1, len(ew)):
+                    cons.append((ew[a] < ew[b]) == (evs[a] < evs[b]))
+            eng.assume(z3.And(cons + [z3.Distinct(evs)]))
+            out["V"] = V
+            A = fit_predict(sup.SupervisedOPF, W, ids, labels)
+            B = fit_predict(sup.SupervisedOPF, V, ids, labels)
+        elif mode == "semi0":
+            A = fit_predict(sup.SupervisedOPF, W, ids, labels)
+            B = fit_predict(semi_mod.SemiSupervisedOPF, W, ids, labels, semi0=True)
+        else:
+            raise RuntimeError(mode)
+        out["A"], out["B"] = A, B
+        return out
+    return harness
+
+
+def pair_payload(eng, m, cfg, out):
+    mats = [models.eval_matrix(eng, m, out["W"])]
+    if "V" in out:
+        mats.append(models.eval_matrix(eng, m, out["V"]))
+    fl = [models.floats_of(x) for x in mats]
+    if any(f is None for f in fl):
+        return None
+    ls = [eng.eval_model(m, l) for l in out["labels"]]
+    return dict(kind="sup_pair", cfg=cfg, W=fl[0], V=fl[1] if len(fl) > 1 else None, labels=ls, ids_b=out["ids_b"])
+
+
+def oblig_pair(eng, cfg, out, info):
+    mode = cfg["mode"]
+    (A, pa), (B, pb) = out["A"], out["B"]
+    ids_b = out["ids_b"]
+    na, nb = A.subgraph.nodes, B.subgraph.nodes
+    eng.check("same-size", len(na) == len(nb), info)
+    for j, s in enumerate(ids_b):
+        a, b = na[s], nb[j]
+        eng.check("same-status[%d]" % s, a.status == b.status, info)
+        eng.check("same-assigned-label[%d]" % s, to_int(a.predicted_label) == to_int(b.predicted_label), info)
+        if mode != "otype":
+            eng.check("same-cost[%d]" % s, to_real(a.cost) == to_real(b.cost), info)
+        if mode == "semi0":
+            # (the stored true label is not compared: semi-supervised fit deliberately re-labels every
+            #  conquered node with its propagated label -- the mechanism the property itself names)
+            eng.check("same-pred[%d]" % s, a.pred == b.pred, info)
+    if mode == "semi0":
+        eng.check("same-order", list(A.subgraph.idx_nodes) == list(B.subgraph.idx_nodes), info)
+    if pa is not None:
+        for k, (x, y) in enumerate(zip(pa, pb)):
+            eng.check("same-prediction[q%d]" % k, to_int(x) == to_int(y), info)
+
+
+def run_pair(cfg):
+    common.bootstrap()
+    tw = common.get_twin()
+    harness = make_pair_harness(cfg, tw)
+
+    def on_leaf(eng, out):
+        oblig_pair(eng, cfg, out, lambda m: pair_payload(eng, m, cfg, out))
+
+    def witness(eng, m, out):
+        p = pair_payload(eng, m, cfg, out)
+        if p is None:
+            return None
+        ev = lambda x: common.fraction_to_float(eng.eval_model(m, x))
+        exp = {}
+        for tag in ("A", "B"):
+            opf, preds = out[tag]
+            exp[tag] = dict(cost=[ev(nd.cost) for nd in opf.subgraph.nodes],
+                            status=[nd.status for nd in opf.subgraph.nodes],
+                            plabel=[ev(nd.predicted_label) for nd in opf.subgraph.nodes],
+                            preds=[ev(x) for x in preds] if preds is not None else None)
+        p["expected"] = exp
+        return p
+    return common.explore(cfg, harness, twin=tw, on_leaf=on_leaf, witness_fn=witness,
+                          witness_stride=cfg.get("wstride", 0), deadline_s=cfg.get("deadline_s"),
+                          seed=cfg.get("seed", 0))
+
+
 OBLIG = {}
 
 
@@ -311,8 +510,10 @@ def run_config(cfg):
         elif prop == "C15":
             oblig_c01(eng, cfg, out, info, semi=True)
             oblig_c02(eng, cfg, out, info, after_fit=True)
+            oblig_some_mst(eng, cfg, out, info)
         elif prop == "C02":
             oblig_c02(eng, cfg, out, info, after_fit=not cfg.get("only_protos"))
+            oblig_some_mst(eng, cfg, out, info)
         elif prop == "C03":
             oblig_c03(eng, cfg, out, info)
         elif prop == "C04":
